@@ -4,13 +4,15 @@ package csr
 //vsym:entry H14_forcecommand
 //vsym:entry H14_newreqparam
 //vsym:entry H14_transid_sequence
+//vsym:entry H14_two_requests
 //vsym:model encoding/json.Unmarshal m14JSONUnmarshal
 //vsym:model net.ParseIP m14ParseIP
 //vsym:model crypto/rand.Read m14RandRead
 //vsym:replay same-harness
-//vsym:expect-cover C14.fc.ok C14.fc.too-few C14.fc.too-many C14.fc.bad-policy C14.ok-json C14.ok-legacy C14.err-message C14.err-logname C14.err-ip C14.err-version C14.default-version C14.json-null C14.sequence
+//vsym:expect-cover C14.fc.ok C14.fc.too-few C14.fc.too-many C14.fc.bad-policy C14.ok-json C14.ok-legacy C14.err-message C14.err-logname C14.err-ip C14.err-version C14.default-version C14.json-null C14.sequence C14.two-requests
 //vsym:bound H14_forcecommand: 0..8 tokens spread over the argument vector in three ways (one per argument, all in one argument, first two joined); the second-to-last token 4 symbolic non-space bytes (NONS, NSOK or anything else), the others 1 symbolic non-space byte
 //vsym:bound H14_newreqparam: SSH_ORIGINAL_COMMAND either JSON (decoder outcome: arbitrary attributes with 0..3- or 7-byte symbolic version, 0..1-byte user/host; or null) or legacy text built from 0..2 tokens (req, SSHClientVersion, HardKey, a 1-byte symbolic key) with 0- or 3-byte symbolic values; LOGNAME 0..2 symbolic bytes; SSH_CONNECTION 0..2 fields of 1 symbolic byte; argv from {3 valid tokens, split tokens, too few, bad policy}; the message shapes and the environment shapes are swept one factor at a time (NewReqParam reads them independently)
+//vsym:bound H14_two_requests: two JSON requests in one process, each stating or omitting the client version, user (1 symbolic byte) and host (1 symbolic byte): 64 combinations; the second is judged as in a fresh process
 //vsym:bound H14_transid_sequence: 14 (thorough 40) accepted requests in one process; every id must be the hex of 5 consecutive crypto/rand bytes no earlier id consumed (randomness may be drawn in larger portions)
 //vsym:assume encoding/json is modelled by its contract (see C15); net.ParseIP is an uninterpreted predicate of its argument; crypto/rand.Read yields arbitrary bytes; the regexp ^\d+\.\d+$ is decided by a byte-class encoding
 
@@ -64,7 +66,25 @@ func m14JSONUnmarshal(data []byte, v any) error {
 		}
 		return nil
 	case 2:
-		*p = *m14Obj
+		// a key that occurs sets its field, a key that does not occur leaves
+		// the field as it was (an empty / zero value in m14Obj stands for
+		// "this key does not occur in the text")
+		o := m14Obj
+		if o.IfVer != 0 {
+			p.IfVer = o.IfVer
+		}
+		if o.SSHClientVersion != "" {
+			p.SSHClientVersion = o.SSHClientVersion
+		}
+		if o.Username != "" {
+			p.Username = o.Username
+		}
+		if o.Hostname != "" {
+			p.Hostname = o.Hostname
+		}
+		if o.HardKey {
+			p.HardKey = true
+		}
 		return nil
 	}
 	return errors.New("model: invalid JSON")
@@ -392,6 +412,80 @@ func h14FreshTransID(id string) {
 			return
 		}
 	}
+}
+
+// H14_two_requests: two requests served by one process: what the second one
+// is answered depends on the second one alone.
+func H14_two_requests() {
+	m14IPValid = true
+	var p *ReqParam
+	var err error
+	for round := 0; round < 2; round++ {
+		tag := []string{"first-", ""}[round]
+		m14JSONOutcome = 2
+		has := func(name string) string {
+			if vChoose(2, tag+name+"-present") == 1 {
+				s := vNondetString(tag+name, 1)
+				vAssume(vAnd(s[0] > 0x20, s[0] < 0x7f))
+				return s
+			}
+			return ""
+		}
+		ver := ""
+		if vChoose(2, tag+"version-present") == 1 {
+			ver = "8.1"
+		}
+		m14Obj = &message.Attributes{IfVer: 7, SSHClientVersion: ver, Username: has("user"), Hostname: has("host")}
+		cmd := "{\"model\":1}"
+		if vIsNative() {
+			b, _ := json.Marshal(map[string]any{"ifVer": 7})
+			if m14Obj.SSHClientVersion != "" || m14Obj.Username != "" || m14Obj.Hostname != "" {
+				mm := map[string]any{"ifVer": 7}
+				if m14Obj.SSHClientVersion != "" {
+					mm["sshClientVersion"] = m14Obj.SSHClientVersion
+				}
+				if m14Obj.Username != "" {
+					mm["username"] = m14Obj.Username
+				}
+				if m14Obj.Hostname != "" {
+					mm["hostname"] = m14Obj.Hostname
+				}
+				b, _ = json.Marshal(mm)
+			}
+			cmd = string(b)
+		}
+		env := func(k string) string {
+			switch k {
+			case "SSH_ORIGINAL_COMMAND":
+				return cmd
+			case "LOGNAME":
+				return "u"
+			case "SSH_CONNECTION":
+				return "1.2.3.4 22"
+			}
+			return ""
+		}
+		obj := m14Obj
+		if vIsNative() {
+			saved := crand.Reader
+			crand.Reader = h14Reader{}
+			defer func() { crand.Reader = saved }()
+		}
+		crashed := vCatch(func() {
+			p, err = NewReqParam(env, func() []string { return []string{"/usr/bin/gensign", "NONS", "regular"} })
+		})
+		vAssert(!crashed, "C14.newreqparam-never-crashes")
+		if crashed {
+			return
+		}
+		complete := obj.SSHClientVersion != "" && obj.Username != "" && obj.Hostname != ""
+		vAssert((err == nil) == complete, "C14.request-judged-on-its-own-text")
+		if err == nil && p != nil {
+			vAssert(vEqString(p.ReqUser, obj.Username) && vEqString(p.ReqHost, obj.Hostname), "C14.client-user-and-host-copied-verbatim")
+			vAssert(p.Attrs != nil && !p.Attrs.HardKey, "C14.request-judged-on-its-own-text")
+		}
+	}
+	vReach("C14.two-requests")
 }
 
 // H14_transid_sequence: many requests in one process, every id fresh.
